@@ -768,6 +768,144 @@ def h5file_close_logged(cx, f):
     a.closed.py_call_method(cx, "add", [f], {})
 
 
+class DeleteFiles(FnSpec):
+    """delete_files(record): unlinks exactly what find_files(record) lists"""
+
+    file = "ih5/record.py"
+    qual = "IH5Record.delete_files"
+    props = ("C03",)
+
+    def init(self):
+        def inv(cx, env, it):
+            a = cx.ghost["df"]
+            p = z3.String(fresh_name("dp"))
+            j = z3.Int(fresh_name("dj"))
+            L = a.found
+            return [("unlinked-so-far-are-the-listed-files-so-far", z3.ForAll([p], a.gone.has(p) == z3.Exists([j], z3.And(0 <= j, j < it.i, L.at_term(j) == p))))]
+
+        self.loops[0] = LoopSpec(inv, modifies=["file"], havoc_inplace=["cls.unlinked_log"])
+
+    def setup(self, cx):
+        from .common_io import TPath
+
+        c = SObj("IH5RecordCls", name="cls")
+        found = SSeq.fresh(TPath(), "files_found_for_the_record")
+        gone = SSet(TPath())
+        c.fields["unlinked_log"] = gone
+        rec = PathVal(z3.String("record_path"))
+        c.fields["find_files"] = lambda cx2, r: (found if r is rec else (_ for _ in ()).throw(Unsupported("find_files of another path")))
+        a = A(cls=c, record=rec)
+        a.found, a.gone = found, gone
+        cx.ghost["df"] = a
+        cx.ghost["unlink_log"] = gone
+        return a
+
+    def raises(self, cx, a):
+        return {}
+
+    def ensures(self, cx, a, res):
+        p = z3.String(fresh_name("ep"))
+        j = z3.Int(fresh_name("ej"))
+        return [("exactly-the-files-of-that-record", z3.ForAll([p], a.gone.has(p) == z3.Exists([j], z3.And(0 <= j, j < a.found.n, a.found.at_term(j) == p))), "replacing a record ('w') removes exactly the container files find_files attributes to that record name: none of a record whose name merely extends it, none left over")]
+
+
+class CreateRecord(FnSpec):
+    """_create(record, truncate): the only place an existing record is removed; otherwise one new base container"""
+
+    file = "ih5/record.py"
+    qual = "IH5Record._create"
+    props = ("C03", "C02")
+
+    def init(self):
+        self.bindings["Path"] = lambda cx, p: p if isinstance(p, CrPath) else (_ for _ in ()).throw(Unsupported("Path of something else"))
+        self.bindings["IH5UserBlock"] = UbFactory()
+
+    def setup(self, cx):
+        rec = CrPath(z3.String("record_path"))
+        base = CrPath(z3.String("base_container_path"))
+        valid, isfile = z3.Bool("record_name_is_valid"), z3.Bool("base_container_exists")
+        trunc = SBool(z3.Bool("truncate"))
+        c = SObj("IH5RecordCreateCls", name="cls")
+        new_obj = SObj("IH5RecordNew", name="ret")
+
+        c.fields["_is_valid_record_name"] = lambda cx2, n: SBool(valid)
+        c.fields["_base_filename"] = lambda cx2, r: (base if r is rec else (_ for _ in ()).throw(Unsupported("another record")))
+        c.fields["delete_files"] = lambda cx2, r: cx2.effect("delete_files", r is rec)
+        c.fields["__new__"] = lambda cx2, k: new_obj
+        c.fields["_new_container"] = lambda cx2, pth, ub: (cx2.effect("new_container", pth, ub), FileTok(pth))[1]
+        base.is_file_t = isfile
+        a = A(cls=c, record=rec, truncate=trunc)
+        a.rec, a.base, a.valid, a.isfile, a.new_obj = rec, base, valid, isfile, new_obj
+        return a
+
+    def raises(self, cx, a):
+        return {"ValueError": z3.Not(a.valid)}
+
+    def on_raise(self, cx, a, exc):
+        return [("refused-without-effect", z3.BoolVal(not cx.fx), "an invalid record name is refused before anything is deleted or created")]
+
+    def ensures(self, cx, a, res):
+        dels = [e for e in cx.fx if e[0] == "delete_files"]
+        news = [e for e in cx.fx if e[0] == "new_container"]
+        ubs = [e for e in cx.fx if e[0] == "ub-create"]
+        order_ok = not dels or (news and cx.fx.index(dels[0]) < cx.fx.index(news[0]))
+        ok_new = len(news) == 1 and news[0][1] is a.base and len(ubs) == 1 and ubs[0][1] is None and news[0][2] is ubs[0][2]
+        files = a.new_obj.fields.get("__files__")
+        ubl = a.new_obj.fields.get("_ublocks")
+        return [
+            ("old-record-removed-only-when-truncating-an-existing-one", z3.BoolVal(len(dels) == 1 and dels[0][1] is True) == z3.And(a.truncate.t, a.isfile) if len(dels) <= 1 else z3.BoolVal(False), "existing containers are deleted exactly when truncate is set and a base container of that name exists (modes x / w- never delete)"),
+            ("then-one-new-base-container", z3.BoolVal(bool(ok_new and order_ok)), "exactly one container is created, at the record's base file name, with a fresh BASE user block (no predecessor), after the removal"),
+            ("returned-record-holds-exactly-it", z3.BoolVal(res is a.new_obj and isinstance(files, list) and len(files) == 1 and isinstance(files[0], FileTok) and files[0].p is a.base and isinstance(ubl, dict) and list(ubl.keys()) == [a.base] and a.new_obj.fields.get("_closed") is False), "the new record object is open and consists of that container and its block"),
+        ]
+
+
+class FileTok(SVal):
+    def __init__(self, p):
+        self.p = p
+
+
+class CrPath(PathVal):
+    is_file_t = None
+    concrete_key = True  # used as a dict key by identity (one path object per role in this contract)
+
+    def __hash__(self):
+        return id(self)
+
+    def __eq__(self, o):
+        return self is o
+
+    def py_getattr(self, cx, name):
+        if name == "name":
+            return SStr(z3.String("record_name_text"))
+        raise Unsupported("path attribute " + name)
+
+    def meth_is_file(self, cx):
+        if self.is_file_t is None:
+            raise Unsupported("is_file of another path")
+        return SBool(self.is_file_t)
+
+
+class UbFactory(SVal):
+    def meth_create(self, cx, prev=None):
+        tok = UbTok()
+        cx.effect("ub-create", prev, tok)
+        return tok
+
+
+class UbTok(SVal):
+    pass
+
+
+def add_delete_files(reg):
+    reg.set_class_home("IH5RecordCls", "ih5/record.py", "IH5Record")
+    reg.set_class_home("IH5RecordCreateCls", "ih5/record.py", "IH5Record")
+    reg.method_bindings[("IH5Record", "super.__init__")] = reg.method_bindings.get(("IH5Record", "super.__init__")) or (lambda cx, obj, *a, **k: None)
+    out = [DeleteFiles(), CreateRecord()]
+    for s in out:
+        reg.add(s)
+    return out
+
+
 def add_lifecycle(reg):
     reg.ctors["H5File"] = h5file_ctor2
     reg.method_bindings[("H5File", "close")] = h5file_close_logged
